@@ -63,7 +63,8 @@ def tight_number_comma_number(root: Any) -> bool:
     """A bare number, a list comma and another number with nothing in between: the lexer reads '516,475' as one number with a thousands separator."""
     toks = [t for t in O.store_tokens(root.token_store) if t.raw_text != '']
     for a, b, c in zip(toks, toks[1:], toks[2:]):
-        if type(a).__name__ == 'Number' and type(b).__name__ == 'Comma' and type(c).__name__ == 'Number' and '.' not in a.raw_text and len(c.raw_text.split('.')[0].split(',')[0]) >= 3:
+        lead = len(c.raw_text) - len(c.raw_text.lstrip('0123456789'))   # a number, or a date: what matters is that >= 3 digits follow the comma
+        if type(a).__name__ == 'Number' and type(b).__name__ == 'Comma' and type(c).__name__ in ('Number', 'Date') and '.' not in a.raw_text and lead >= 3:
             return True
     return False
 
